@@ -55,6 +55,14 @@ def library_config_changes(feature, repo=None):
 def same_library_clause(ctx, clause, features=("cmdline", "python"), why="the number model (serde_json::Number::as_f64 total, numbers parsed as i64/u64/f64)"):
     """The front-end features reconfigure no package of the library build — so what the rules establish for the
     default build (in particular %s) holds for the library inside the command and the Python module too."""
+    # the library build itself: serde_json with its default number model (i64 / u64 / finite f64, as_f64 total) and
+    # without its private number token (`arbitrary_precision` makes numbers keep their spelling, lets literals beyond
+    # the f64 range parse with as_f64() == None, and turns {"$serde_json::private::Number": "5"} in a text into 5)
+    base = resolved(None)
+    sj = [(p_, fs) for p_, fs in base.items() if p_.split(" ")[0] == "serde_json"]
+    ctx.check(bool(sj) and not any("arbitrary_precision" in fs for _, fs in sj), clause, "the library is built on serde_json's standard number model (no arbitrary_precision)",
+              "the library build enables serde_json/arbitrary_precision: numbers are kept as text (their spelling shows in string forms, literals beyond the f64 range parse and have no f64 value, a private token object is read as a number)",
+              where="Cargo.toml", nontrivial=True)
     for feat in features:
         changes, npk = library_config_changes(feat)
         ctx.floor("packages of the library build compared (%s)" % feat, npk, 10)
